@@ -78,7 +78,7 @@ TABLE = {
         "level": "model_checking", "rule": SCHED_RULE, "assumptions": T_ASSUME,
         "drivers": [
             {"driver": "ping-mt", "required_clauses": ["ping-delivery", "ping-close"],
-             "opts": {"quick": {"threads": 2, "len": 2, "preempt": 2}, "thorough": {"threads": 2, "len": 3, "preempt": 3, "wall": 900}}},
+             "opts": {"quick": {"threads": 2, "len": 2, "preempt": 2}, "thorough": {"threads": 2, "len": 3, "preempt": 3, "wall": 600}}},
             {"driver": "ping-seq", "required_clauses": ["callback-legitimacy", "dispatch-owed", "epoll-table"]},
         ],
     },
@@ -86,11 +86,11 @@ TABLE = {
         "level": "model_checking", "rule": SCHED_RULE, "assumptions": T_ASSUME,
         "drivers": [
             {"driver": "chan-mt", "required_clauses": ["channel-delivery", "channel-closed"],
-             "opts": {"quick": {"threads": 2, "len": 2, "preempt": 2}, "thorough": {"threads": 2, "len": 3, "preempt": 3, "wall": 900}}},
+             "opts": {"quick": {"threads": 2, "len": 2, "preempt": 2}, "thorough": {"threads": 2, "len": 3, "preempt": 3, "wall": 600}}},
             {"driver": "chan-seq", "required_clauses": ["callback-legitimacy", "dispatch-owed"]},
             {"driver": "limit", "required_clauses": ["batch-limit"], "shards": 1, "replayable": False},
             {"driver": "sync-mt", "required_clauses": ["sync-channel-delivery", "blocking-send-parked", "channel-closed"],
-             "opts": {"quick": {"threads": 1, "len": 2, "preempt": 2}, "thorough": {"threads": 2, "len": 2, "preempt": 2, "wall": 1500}}},
+             "opts": {"quick": {"threads": 1, "len": 2, "preempt": 2}, "thorough": {"threads": 2, "len": 2, "preempt": 2, "wall": 600}}},
         ],
     },
     "C08": {
@@ -145,7 +145,7 @@ TABLE = {
         "level": "model_checking", "rule": SCHED_RULE, "assumptions": T_ASSUME,
         "drivers": [
             {"driver": "exec-mt", "required_clauses": ["executor-wake", "executor-drop"],
-             "opts": {"quick": {"threads": 2, "len": 2, "preempt": 2}, "thorough": {"threads": 2, "len": 3, "preempt": 3, "wall": 900}}},
+             "opts": {"quick": {"threads": 2, "len": 2, "preempt": 2}, "thorough": {"threads": 2, "len": 3, "preempt": 3, "wall": 600}}},
             {"driver": "exec-seq", "required_clauses": ["callback-legitimacy", "dispatch-owed", "executor-destroyed", "wait-request"]},
             {"driver": "stream-seq", "required_clauses": ["callback-legitimacy", "dispatch-owed", "epoll-table", "wait-request"]},
             {"driver": "limit", "required_clauses": ["batch-limit"], "shards": 1, "replayable": False},
@@ -158,7 +158,7 @@ TABLE = {
             {"driver": "run", "required_clauses": ["run-stop"], "opts": {"quick": {"preempt": 100}, "thorough": {"preempt": 100}}, "shards": 1},
             {"driver": "block_on", "required_clauses": ["block-on"], "opts": {"quick": {"preempt": 100}, "thorough": {"preempt": 100}}, "shards": 1},
             {"driver": "signal-mt", "required_clauses": ["run-stop-mt"],
-             "opts": {"quick": {"threads": 2, "len": 2, "preempt": 2}, "thorough": {"threads": 2, "len": 3, "preempt": 3, "wall": 1200}}},
+             "opts": {"quick": {"threads": 2, "len": 2, "preempt": 2}, "thorough": {"threads": 2, "len": 3, "preempt": 3, "wall": 600}}},
         ],
     },
     "C17": {
